@@ -679,6 +679,18 @@ func (s *scen) exec(st *Step) {
 	case "model":
 		// the code-shaped model's prediction for the state just observed (spec -> code conformance; judged by the trace spec)
 		s.emit(J{"k": "model", "w": st.W, "wl": st.Model.WL, "nmarks": st.Model.NMarks, "nwd": st.Model.NWd, "npath": st.Model.NPath})
+	case "wflags":
+		// fault point: the recorded flags of a watch are overwritten (an invalid mask makes the registration of new
+		// sub-directories of a recursive watch fail with EINVAL)
+		ok := false
+		if w := s.ws[st.W]; w != nil && w.W != nil && st.Arg != nil {
+			fl := uint32(0)
+			if st.Ops != nil {
+				fl = uint32(*st.Ops)
+			}
+			ok = fsnotify.VerifInotifySetWatchFlags(w.W, filepath.Clean(s.render(st.Arg)), fl)
+		}
+		s.emit(J{"k": "wflags", "w": st.W, "ok": ok})
 	case "evmodel":
 		// the event model's prediction of everything received so far (spec -> code conformance; judged by the trace spec)
 		want := []J{}
